@@ -182,6 +182,8 @@ impl<const H: usize> Reader<H> {
     ///
     /// If the data is compressed, it will be automatically decompressed.
     pub fn read_record(&mut self, offset: u64, hint: ReadHint) -> Result<Record<'_, H>, ReadError> {
+        // Loaded before the flushed offset, see `FlushedOffset::truncate`
+        let rewrites = self.flushed_offset.rewrites();
         let flushed_offset = self.flushed_offset.load();
         if offset + RECORD_HEAD_SIZE as u64 > flushed_offset {
             return Err(ReadError::OutOfBounds {
@@ -192,7 +194,12 @@ impl<const H: usize> Reader<H> {
         }
 
         if matches!(hint, ReadHint::Sequential) {
-            // Sequential reads use the read-ahead buffer
+            // Sequential reads use the read-ahead buffer, bytes cached before a truncation may
+            // have been rewritten since
+            if self.read_ahead_buf.rewrites != rewrites {
+                self.read_ahead_buf.invalidate();
+                self.read_ahead_buf.rewrites = rewrites;
+            }
             return self.read_record_sequential(offset, flushed_offset);
         }
 
@@ -574,6 +581,7 @@ struct ReadAheadBuf {
     offset: u64, // File offset of the buffer start
     pos: usize,  // Current read position in buffer
     valid_len: usize,
+    rewrites: u64, // Rewrite count of the segment when the buffer was filled
 }
 
 impl ReadAheadBuf {
@@ -583,6 +591,7 @@ impl ReadAheadBuf {
             offset: 0,
             pos: 0,
             valid_len: 0,
+            rewrites: 0,
         }
     }
 
